@@ -125,8 +125,22 @@ func c16State(r *report.R, id string) {
 		}
 		n.Deliver(n.CosmosTx(vn.CosmosArgs{Msgs: []sdk.Msg{&stakingtypes.MsgBeginRedelegate{DelegatorAddress: a3.Addr.String(), ValidatorSrcAddress: dels[0].ValidatorAddress, ValidatorDstAddress: dst, Amount: sdk.NewCoin(vn.Denom, sdkmath.NewInt(stakeUnit*7))}}, Gas: 2_000_000, Fee: vn.Coins(2_000_000)}, a3))
 	}
+	// some delegators have their rewards paid to another account
+	redirected := 0
+	if rng.Intn(2) == 0 {
+		for i := 0; i < 1+rng.Intn(3); i++ {
+			o, w := n.Accounts[rng.Intn(4)], n.Accounts[5+rng.Intn(3)]
+			if res := n.Deliver(n.CosmosTx(vn.CosmosArgs{Msgs: []sdk.Msg{&distrtypes.MsgSetWithdrawAddress{DelegatorAddress: o.Addr.String(), WithdrawAddress: w.Addr.String()}}, Gas: 500_000, Fee: vn.Coins(500_000)}, o)); res.Code == 0 {
+				redirected++
+			}
+		}
+	}
 	e.nextBlock()
 	stateCls := "delegations+ubd+redelegation+rewards"
+	if redirected > 0 {
+		stateCls += "+redirected-withdraw-address"
+		r.Count("states_with_a_redirected_withdraw_address", 1)
+	}
 	if rng.Intn(2) == 0 {
 		// a validator is slashed for an infraction older than the unbonding / redelegation entries:
 		// their balances drop below their initial balances
